@@ -1155,6 +1155,7 @@ def run(ctx):
                          f"('dict' object is not callable: stDAG.nodes_reaching is a property) in {n_dormant} explicit calls; on the DAG side only "
                          "safe_lists and paths_to_fix are certified")
     import e3dom; e3dom.run_dom_e3(ctx, ctx.budget(250, 5000))   # dominator route of the cyclic class against the extracted DomAlg model
+    import e3fix; e3fix.run_fix_e3(ctx, ctx.budget(150, 3000))   # zero-fixing rule of the cyclic classes against WalkEncRows.zero_edges
 
 
 def replay(ctx, body):
